@@ -6,6 +6,7 @@ import numpy as np
 import loop_traces as LT
 from props import _loop
 
+ESCALATE = True     # cheap thorough tier: run it whenever an anchor file differs from the pinned fingerprint
 RULE = ("live runs of all ten optimizer classes (objectives with ties and plateaus so that >= vs > matters); per generation: "
         "best-so-far non-decreasing, elitism => last slot equals the record, greedy family: slot-wise fitness non-decreasing "
         "and a slot changes only to its own trial when trial >= parent, stored fitness = objective re-evaluated on the stored "
